@@ -176,6 +176,9 @@ func checkConfigValidity(c *NsxConfig) error {
 		if len(g.Expression) != 1 {
 			return fmt.Errorf("Expecting exactly one expression in group %s", g.Id)
 		}
+		if len(g.Expression[0].IPAddresses) == 0 {
+			return fmt.Errorf("Expecting at least one IP address in group %s", g.Id)
+		}
 	}
 	return nil
 }
